@@ -78,6 +78,15 @@ func specs(tier string) []spec {
 		b := []ops.Op{{K: "T", A: 4, B: 2, V: 9}, M, {K: "T", A: 4, B: 3, V: 9}, M}
 		out = append(out, spec{fmt.Sprintf("d1/tick-gap-%s", []string{"epoch-end", "mid-epoch"}[i]), pfx, a, b})
 	}
+	// the branches disagree on the proof momentum of a later tick's election: A fills the tick after the fork point and
+	// starts the next one (4 momentums), B misses the last slot of the tick after the fork point and fills the next tick
+	// (5 momentums, none in the tick whose election is at stake); the node answers schedule queries for the coming ticks
+	// while it is on A (warm bit 256)
+	{
+		a := []ops.Op{{K: "T", A: 1, B: 2, V: 7}, M, M, M, M}
+		b := []ops.Op{{K: "T", A: 4, B: 2, V: 9}, M, M, {K: "M", V: 1}, M, M}
+		out = append(out, spec{"d4/election-proof-differs", prefix, a, b})
+	}
 	// long common prefix: views more than 360 momentums behind the frontier live in the store's second view cache
 	longPrefix := append(append([]ops.Op{}, prefix...), rep(M, 362)...)
 	for _, d := range []int{1, 2} {
@@ -201,6 +210,8 @@ type caseSpec struct {
 	Follow   int    `json:"follow"`   // 0 none, 1 next momentum, 2 gossip g2 afterwards
 }
 
+const warmConsensus = 256 // Warm bit: consensus queries for the coming ticks before the switch
+
 type observation struct {
 	full, cons, pool string
 	views            []string
@@ -294,6 +305,9 @@ func runCase(c *xs.Ctx, r *xs.Result, bt *built, cs caseSpec, refObs observation
 				panic("cannot warm an existing view")
 			}
 		}
+	}
+	if cs.Warm&warmConsensus != 0 {
+		n.ConsensusDigest(9) // weights, epoch statistics and the producers of the next 9 slots (three election ticks), as RPC and the producer loop ask
 	}
 	if cs.Pool&1 != 0 {
 		if err, pan := n.AddAccountBlocks([]*nom.AccountBlock{vnode.CloneBlock(bt.g1)}); err != nil || pan != nil {
@@ -527,10 +541,19 @@ func run(c *xs.Ctx, r *xs.Result) {
 		for follow := 0; follow < nfollow; follow++ {
 			var refObs observation
 			var refIDs []types.HashHeight
+			warms := []int{}
 			for warm := 0; warm < 1<<nwarm; warm++ {
 				if long && warm != 0 && warm != (1<<nwarm)-1 {
 					continue // long forks: none / all
 				}
+				warms = append(warms, warm)
+			}
+			if strings.Contains(sp.Name, "election-proof") || strings.Contains(sp.Name, "tick-gap") {
+				for _, warm := range append([]int{}, warms...) {
+					warms = append(warms, warm|warmConsensus)
+				}
+			}
+			for _, warm := range warms {
 				for pool := 0; pool < 4; pool++ {
 					for delivery := 0; delivery < 3; delivery++ {
 						if long && (delivery == 2 || (pool != 0 && pool != 3)) {
